@@ -583,7 +583,7 @@ impl Prop for C19 {
     }
     fn cases(&self, tier: Tier) -> u64 {
         match tier {
-            Tier::Quick => 1500,
+            Tier::Quick => 3000,
             Tier::Thorough => 20_000,
         }
     }
